@@ -1,6 +1,6 @@
 (* Extraction of the executable model.  ExtrOcamlBasic only: N, Z, positive, nat, byte,
    ascii and string stay the extracted inductive types. *)
-Require Import V.Extract.Out V.Extract.Dispatch.
+Require Import V.Extract.Out V.Extract.Dispatch V.Extract.DispatchS.
 From Coq Require Import Extraction ExtrOcamlBasic.
 Extraction Language OCaml.
-Extraction "model.ml" Dispatch.drv_run Out.drv_byte_to_N Out.drv_byte_of_N Out.drv_n_add Out.drv_n_mul.
+Extraction "model.ml" DispatchS.drv_main Out.drv_byte_to_N Out.drv_byte_of_N Out.drv_n_add Out.drv_n_mul.
